@@ -192,6 +192,7 @@ def eval_format(ck, impl, drv, kind, loc, dt):
         ck.disagreement("Model.Codec.formatTrashinfoWith/Date.fmt vs format_trashinfo",
                         dict(case, impl=None if got is None else hx(got), model=m["r"]))
     if got is None:
+        ck.violation("every-name-can-be-written", {"kind": "format", "utf8": False}, case)
         return
     ck.traces += 1
     if not drv.ask({"op": "c03holds", "content": hx(got), "loc": hx(loc)})["r"]:
